@@ -17,15 +17,8 @@
 /// - matrix![ a, b, c; d, e, f; g, h, i ]
 #[macro_export]
 macro_rules! matrix {
-    // Semicolon-separated rows form: matrix![ a, b; c, d ]
-    ( $( $( $x:expr ),+ ) ;+ $(;)? ) => {{
-        let rows_vec = vec![ $( vec![ $( $x ),+ ] ),+ ];
-        let n = rows_vec.len();
-        assert!(rows_vec.iter().all(|r| r.len() == n), "matrix! requires a square n x n list of rows");
-        let mut data = Vec::with_capacity(n*n);
-        for r in rows_vec.into_iter() { data.extend(r.into_iter()); }
-        $crate::matrix::Matrix::from_vec(n, n, data)
-    }};
+    // Bracketed rows form: matrix![ [a, b], [c, d] ] (must come first: a bracketed row is
+    // itself an expression and would otherwise be taken for a single semicolon-form row)
     ( $( [ $( $x:expr ),* $(,)? ] ),+ $(,)? ) => {{
         // Collect rows into a Vec<Vec<_>> first
         let rows_vec = vec![ $( vec![ $( $x ),* ] ),+ ];
@@ -34,7 +27,16 @@ macro_rules! matrix {
         assert!(rows_vec.iter().all(|r| r.len() == n), "matrix! requires a square n x n list of rows");
         let mut data = Vec::with_capacity(n*n);
         for r in rows_vec.into_iter() { data.extend(r.into_iter()); }
-        $crate::linalg::matrix::Matrix::full(n, data)
+        $crate::matrix::Matrix::from_vec(n, n, data)
+    }};
+    // Semicolon-separated rows form: matrix![ a, b; c, d ]
+    ( $( $( $x:expr ),+ ) ;+ $(;)? ) => {{
+        let rows_vec = vec![ $( vec![ $( $x ),+ ] ),+ ];
+        let n = rows_vec.len();
+        assert!(rows_vec.iter().all(|r| r.len() == n), "matrix! requires a square n x n list of rows");
+        let mut data = Vec::with_capacity(n*n);
+        for r in rows_vec.into_iter() { data.extend(r.into_iter()); }
+        $crate::matrix::Matrix::from_vec(n, n, data)
     }};
 }
 
